@@ -124,3 +124,45 @@ level("C18",
       "`token == 'X'` chain.",
       "writer/reader table agreement, exhaustiveness by rapid type analysis, guard dominance for nullable values",
       "DESIGN.md §4 C18")
+
+level("C10",
+      "Static decision for all string sets and limits of: each limit comparison flips exactly at the documented boundary "
+      "and measures one collection; the unlimited case is an identity test; Literal members pass an escaper that is "
+      "exact for every str in code context; Literal appears only when the style enables it; attrs disables it; the "
+      "configured maximum is stored per generator instance.",
+      "Decided: LIM-1..3, INJ-3, LIT-1/2, GLOB-1. NOT decided: 'annotated whenever nothing had to be generalised', that "
+      "the listed strings are exactly the observed ones (run-time values). Trusted: the escaper table (validated "
+      "against the interpreter in the thorough tier), constant folding of the limits.",
+      "comparison normalisation evaluated at boundary points; escaper classification over symbolic string provenance; path enumeration",
+      "DESIGN.md §4 C10")
+level("C11",
+      "Static decision for every key text of: the original key is only compared, converted to a label, stored in a "
+      "container display or escaped exactly in code context; it is attached and rendered on every feasible path where "
+      "the name differs; labels are sanitised in the required order with an exact black-list test last; all importable "
+      "names are black-listed; taken model names are always renamed; the label cache separates the two conversions.",
+      "Decided: INJ-2, SIB-2, LABEL-1, SHADOW-1, DUP-1, CACHE-2. NOT decided: distinct keys give distinct names "
+      "(string functions of unidecode/inflection on concrete input); class-name de-duplication precedes sanitising. "
+      "Trusted: escaper table, regex AST of the sanitiser, path feasibility simulation of the kwargs dict.",
+      "taint-with-sanitiser classification of every use of the key; label typestate ordering; path enumeration with abstract dict state",
+      "DESIGN.md §4 C11")
+level("C03",
+      "Static decision for all inputs of: every emitted import resolves against installed sources; every identifier in "
+      "emitted fragments is imported by the same generator or builtin; importable names are black-listed; labels are "
+      "sanitised in order; taken names renamed; model references are quoted; keys/literal members cannot break the "
+      "source; defaults exactly on optional fields.",
+      "Decided: IMP-1, IMP-2/3, SHADOW-1, LABEL-1, DUP-1, FWD-1, INJ-2/3, SIB-1. NOT decided: that the whole module "
+      "compiles and every annotation evaluates per input; uniqueness of sanitised names; one class per model is "
+      "covered under C12's rules. sqlmodel is not installed: its two imports are counted as unverifiable. Trusted: "
+      "ast of site-packages sources for name binding, template tokenisation.",
+      "writer/reader agreement between emitted imports and free identifiers of emitted fragments (folded Jinja templates), resolved against installed sources",
+      "DESIGN.md §4 C03")
+level("C04",
+      "Static decision for all model graphs of: the three framework generators agree with the canonical default table on "
+      "every feasible path (default iff optional; list/dict factories; None otherwise) and the flag comes from the "
+      "DOptional test; the original key is attached, rendered and exactly escaped when the name differs; IR wrappers "
+      "render as their typing counterparts; labels come from the right conversion; style tables are per instance.",
+      "Decided: SIB-1, SIB-2, INJ-2, TBL-1, CACHE-2, GLOB-1. NOT decided: per-program equality between the evaluated "
+      "annotation and the IR type, whitespace/indentation of templates. Trusted: path enumeration and the abstract "
+      "kwargs-dict state used to discard infeasible paths.",
+      "sibling cross-check by path enumeration of each field_data implementation against a canonical table",
+      "DESIGN.md §4 C04")
